@@ -258,3 +258,80 @@ func iterAfterClose() []string {
 	}
 	return why
 }
+
+// wrappedArgs (l2; C08): the whole argument list passed as ONE argument of type []any (the
+// trailing "..." forgotten), also by pointer and also empty: an argument whose type the
+// statement does not use as input; it is rejected and nothing reaches the driver (C08m: a
+// convenience unpacking in DB.Query / TX.Query that skips the validation of the slice).
+func wrappedArgs() []string {
+	var why []string
+	type tc struct {
+		q       string
+		samples []any
+		args    []any
+	}
+	cases := []tc{
+		{"SELECT x FROM t WHERE k = $ovArg.k", []any{ovArg{}}, []any{ovArg{K: 1}}},
+		{"SELECT x FROM t WHERE k = $ovArg.k AND id = $ovIns.id", []any{ovArg{}, ovIns{}}, []any{ovArg{K: 1}, ovIns{ID: 2}}},
+		{"SELECT x FROM t WHERE k = $ovArg.k", []any{ovArg{}}, []any{&ovArg{K: 1}}},
+		{"INSERT INTO t (*) VALUES ($ovIns.*)", []any{ovIns{}}, []any{ovIns{ID: 1, Name: "n"}}},
+		{"INSERT INTO t (*) VALUES ($ovIns.*)", []any{ovIns{}}, []any{[]ovIns{{1, "a"}, {2, "b"}}}},
+		{"SELECT x FROM t", nil, nil},
+		{"SELECT &ovRow.* FROM t", []any{ovRow{}}, nil},
+	}
+	for _, c := range cases {
+		s, err := sqlair.Prepare(c.q, c.samples...)
+		if err != nil {
+			why = append(why, "prepare: "+err.Error())
+			continue
+		}
+		wrapped := append([]any{}, c.args...)
+		for _, form := range []string{"slice", "ptr"} {
+			for _, path := range []string{"db", "tx"} {
+				sqldb, st := fakedrv.Open()
+				st.SetScript(fakedrv.Script{Columns: []string{"_sqlair_0", "_sqlair_1"}})
+				db := sqlair.NewDB(sqldb)
+				ctx := context.Background()
+				var arg any = wrapped
+				if form == "ptr" {
+					arg = &wrapped
+				}
+				var q *sqlair.Query
+				var tx *sqlair.TX
+				if path == "db" {
+					q = db.Query(ctx, s, arg)
+				} else {
+					tx, err = db.Begin(ctx, nil)
+					if err != nil {
+						sqldb.Close()
+						continue
+					}
+					q = tx.Query(ctx, s, arg)
+				}
+				st.Reset()
+				rerr := q.Run()
+				n := 0
+				for _, e := range st.Events() {
+					if e.Kind == "prepare" || e.Kind == "exec" || e.Kind == "query" {
+						n++
+					}
+				}
+				if tx != nil {
+					tx.Rollback()
+				}
+				sqldb.Close()
+				what := fmt.Sprintf("%q run through %s with its %d argument(s) passed as one argument of type %T", c.q, path, len(c.args), arg)
+				if rerr == nil {
+					why = append(why, what+": accepted (the statement does not use that type as input)")
+				}
+				if n > 0 {
+					why = append(why, fmt.Sprintf("%s: %d statement(s) prepared or executed on the database although the arguments are invalid", what, n))
+				}
+			}
+		}
+	}
+	if len(why) > 4 {
+		why = why[:4]
+	}
+	return why
+}
